@@ -76,13 +76,12 @@ func (a *sessionAwareAdapter) cleaner() {
 			}
 		}
 
-		for i := len(a.packets) - 1; i >= 0; i-- {
-			packet := a.packets[i]
-			if packet.HasExpired(a.maxDisconnectDuration) {
-				a.packets = append(a.packets[:i], a.packets[i+1:]...)
-				break
-			}
+		// Packets are kept in emission order, so the expired ones form a prefix.
+		expired := 0
+		for expired < len(a.packets) && a.packets[expired].HasExpired(a.maxDisconnectDuration) {
+			expired++
 		}
+		a.packets = a.packets[expired:]
 		vhook.Event("clean.end", "o", a, "now", time.Now(), "ids", a.packets, "pids", a.sessions)
 		a.mu.Unlock()
 	}
